@@ -4,6 +4,7 @@
 #   ./check.sh replay <file>                    re-run one replay file (strict: known findings count as violations)
 #   ./check.sh build                            build only (setup)
 # exit 0: held on everything explored; 1: VIOLATION (line printed); 2: inconclusive / harness problem
+if [ "$1" = "replay" ] && [ -n "$2" ]; then set -- replay "$(realpath "$2")"; fi
 cd "$(dirname "$0")/harness" || exit 2
 export CARGO_NET_OFFLINE=true
 if ! cargo build --release --offline >build.log 2>&1; then
